@@ -404,7 +404,31 @@ func (w *World) inject(b *Byz, round int) {
 		}
 		return j
 	}
-	switch c.Choose(7, "inject.what") {
+	switch c.Choose(8, "inject.what") {
+	case 7: // a burst of answers nobody asked for, for t, t+1 or t+2 distinct participants (the "> t entries" boundary)
+		k := w.t + c.Choose(3, "inject.burst.k")
+		if k > w.n-1 {
+			k = w.n - 1
+		}
+		start := c.Choose(w.n, "inject.burst.start")
+		sent := 0
+		for d := 0; d < w.n && sent < k; d++ {
+			j := (start + d) % w.n
+			if j == b.idx {
+				continue
+			}
+			data, poly, how := []byte(nil), "X", "randomscalar"
+			if s, ok := b.realShares[j]; ok && !c.Bool(1, 4, "inject.burst.wrong") {
+				data, poly, how = append([]byte{tagAnswer, byte(j)}, s...), "A", "realshare"
+			} else {
+				data = append([]byte{tagAnswer, byte(j)}, curve.ScalarRandom(rnd)...)
+			}
+			m := mk(true, -1, data, "answer", "answerburst:"+how)
+			m.Poly, m.Idx = poly, j
+			w.sendByz(b, m)
+			sent++
+		}
+		w.fault("byz.answer_burst")
 	case 0: // answer nobody asked for (or asked for), correct or not
 		j := otherThan(b.idx, "inject.answer.for")
 		if len(b.faulted) > 0 && c.Bool(1, 2, "inject.answer.prefer") {
